@@ -201,6 +201,14 @@ let oracle_constraints (q : string) (impl : string) : string =
         | [ "eq"; i; j ] ->
             if get (int_of_string i) = get (int_of_string j) then None
             else Some ("operations " ^ i ^ " and " ^ j ^ " must agree: " ^ get (int_of_string i) ^ " vs " ^ get (int_of_string j))
+        | [ "agree"; i; j ] ->
+            (* the same output, or both fail with the same message (the file path differs between the APIs) *)
+            let a = int_of_string i and b = int_of_string j in
+            if is_ok a && get a = get b then None
+            else (
+              match err_fields a, err_fields b with
+              | Some (_, _, m1), Some (_, _, m2) when m1 = m2 -> None
+              | _ -> Some ("operations " ^ i ^ " and " ^ j ^ " must agree: " ^ get a ^ " vs " ^ get b))
         | [ "ok"; i ] -> if is_ok (int_of_string i) then None else Some ("operation " ^ i ^ " must succeed: " ^ get (int_of_string i))
         | [ "err"; i ] -> if is_err (int_of_string i) then None else Some ("operation " ^ i ^ " must fail: " ^ get (int_of_string i))
         | [ "line"; i; n ] -> (
